@@ -221,8 +221,6 @@ def replace_sub_arm(item, pattern, new_body, count=1, rule="EB"):
     for _, ob, cb, _ in _match_bodies(toks, 0, len(toks)):
         for p0, p1, b0, b1, is_block in _arms(toks, ob, cb):
             if _norm(_span_text(text, toks, p0, p1)) == want:
-                if not is_block:
-                    raise ExtractError("%s: rule %s: arm `%s` is not a block" % (item.name, rule, pattern))
                 hits.append((toks[b0].start, toks[b1].end))
     hits = sorted(set(hits))
     if len(hits) != count:
@@ -889,19 +887,77 @@ def desugar_ops(item, cfg, rule="ED"):
         raise ExtractError("%s: rule %s: unhandled node kind %s" % (item.name, rule, k))
 
     walk(root, {})
-    # outer nodes first so that prefixes at the same offset nest correctly
-    edits.sort(key=lambda e: (span(e[1])[0], -span(e[1])[1]))
-    for kind, n, prefix in edits:
+    if not edits:
+        return 0
+    chosen = {id(n): (kind, prefix) for kind, n, prefix in edits}
+
+    def place_ok(n):
+        """assignment targets we hoist the right operand over: a path, field access or dereference thereof (no side effects)"""
+        if n.kind == "path":
+            return True
+        if n.kind in ("field", "paren"):
+            return place_ok(n.kids[0])
+        if n.kind == "unary" and n.op == "*":
+            return place_ok(n.kids[0])
+        return False
+
+    def render_span(s, e, subs):
+        """original text of [s,e) with the non-overlapping substitutions `subs` and the earlier rewrites inside the gaps applied"""
+        out, pos = [], s
+        old = [(a, b, t) for (a, b, t) in item._repl if s <= a and b <= e]
+        # an earlier rewrite that covers a whole sub-expression wins over the (unchanged) sub-expression text
+        subs = [(x, y, t) for (x, y, t) in subs if not any(a <= x and y <= b for (a, b, _) in old)]
+        items = sorted(subs + [(a, b, t) for (a, b, t) in old if not any(x <= a and b <= y for (x, y, _) in subs)])
+        for a, b, t in items:
+            if a < pos:
+                raise ExtractError("%s: rule %s: overlapping rewrites" % (item.name, rule))
+            out.append(text[pos:a])
+            out.append(t)
+            pos = b
+        out.append(text[pos:e])
+        return "".join(out)
+
+    def rewrite(n):
         s, e = span(n)
-        o0, o1 = ps.t[n.optok[0]].start, ps.t[n.optok[1]].end
-        item._ins.append((s, len(item._ins), prefix))
-        item._repl.append((o0, o1, ","))
-    # closing parentheses: inner nodes first is irrelevant (identical text)
-    for kind, n, prefix in edits:
+        kids = [c for c in n.kids if isinstance(c, Node) and c.kind != "item"]
+        if id(n) in chosen:
+            kind, prefix = chosen[id(n)]
+            l, r = n.kids
+            o0, o1 = ps.t[n.optok[0]].start, ps.t[n.optok[1]].end
+            ls, le = span(l)
+            rs, re_ = span(r)
+            if kind == "bin":
+                return prefix + rewrite(l) + text[le:o0] + "," + text[o1:rs] + rewrite(r) + ")"
+            if not place_ok(l):
+                raise ExtractError("%s: rule %s: compound assignment to a non-place expression" % (item.name, rule))
+            # two-phase borrow of the implicit `&mut` made explicit: the right operand is evaluated into a temporary first
+            return "{ let vp_rhs = " + rewrite(r) + "; " + prefix + rewrite(l) + ", vp_rhs) }"
+        return render_span(s, e, [(span(c)[0], span(c)[1], rewrite(c)) for c in kids])
+
+    def contains_chosen(n):
+        return id(n) in chosen or any(contains_chosen(c) for c in n.kids if isinstance(c, Node))
+
+    tops = []
+
+    def collect(n):
+        if id(n) in chosen:
+            tops.append(n)
+            return
+        for c in n.kids:
+            if isinstance(c, Node):
+                collect(c)
+
+    collect(root)
+    for n in tops:
         s, e = span(n)
-        item._ins.append((e, len(item._ins), ")"))
-    if edits:
-        ops = sorted({n.op for _, n, _ in edits})
-        item.rules.append("%s: %d overloaded operator application(s) with a big-integer operand (%s) rewritten to the trait-method form "
-                          "`core::ops::Tr::op(A, B)` / `core::ops::TrAssign::op_assign(&mut A, B)` that the Rust reference defines them as" % (rule, len(edits), " ".join(ops)))
+        new = rewrite(n)
+        item._repl = [(a, b, t) for (a, b, t) in item._repl if not (s <= a and b <= e)]
+        for (o, k, t) in item._ins:
+            if s < o < e:
+                raise ExtractError("%s: rule %s: an insertion lies inside a rewritten expression" % (item.name, rule))
+        item._repl.append((s, e, new))
+    ops = sorted({n.op for _, n, _ in edits})
+    item.rules.append("%s: %d overloaded operator application(s) with a big-integer operand (%s) rewritten to the trait-method form the Rust reference "
+                      "defines them as: `A op B` -> `core::ops::Tr::op(A, B)`; `A op= B` -> `{ let vp_rhs = B; core::ops::TrAssign::op_assign(&mut A, vp_rhs) }` "
+                      "(A a place expression; the temporary makes the two-phase borrow of the implicit `&mut A` explicit)" % (rule, len(edits), " ".join(ops)))
     return len(edits)
